@@ -5,6 +5,7 @@
   plain list operation, for EVERY block layout; layout invariance is then a corollary.
 -/
 import SFModel.BlocksLemmas
+import SFModel.BlocksCacheLemmas
 
 namespace SF.C03
 open SF SF.TB
@@ -234,5 +235,142 @@ theorem extend_cols (tb o r : TB α) (h : tb.extend o = .ok r) (hw : tb.WF) (ho 
       · have := ho.2 x hx; rw [hrows'] at this; exact this
 
 example : ∃ r, tbEx.extend tbEx = .ok r := ⟨_, rfl⟩
+
+/-! ### the incrementally maintained caches (`_shape`, `_index`, `_dtypes`, `_row_dtype`) -/
+
+/-- a small resolution table for the examples: same → itself, int64 with float64 → float64 (what
+    `util.resolve_dtype` answers), anything else → object -/
+def resolveEx (a b : DT) : DT :=
+  if a = b then a else if (a = "i8" ∧ b = "f8") ∨ (a = "f8" ∧ b = "i8") then "f8" else objectDT
+
+/-- `from_blocks` sets caches that describe the stored blocks; its row dtype is the left fold of the
+    resolution over the stored blocks (`resolve_dtype_iter`). -/
+theorem caches_ofBlocks_coherent (resolve : DT → DT → DT) (bs : List (Block α)) (ref : Option Nat)
+    (g : Grown α) (h : Grown.ofBlocks resolve bs ref = .ok g) :
+    g.Coherent ∧ g.tb.WF ∧ TB.fromBlocks bs ref = .ok g.tb ∧
+    g.caches.rowDtype = Caches.initRowDtype resolve g.tb.blocks :=
+  Grown.ofBlocks_inv resolve bs ref g h
+
+example : (Grown.ofBlocks resolveEx tbEx.blocks none).map (·.caches) =
+    .ok ⟨(2, 3), [(0, 0), (1, 0), (1, 1)], ["i", "f", "f"], some objectDT⟩ := by decide
+
+/-- One `append` keeps the caches equal to what a recomputation from the new block list gives, the
+    blocks change as in `TB.append`, and the kept row dtype follows the rule of the code: the dtype
+    of the first stored block, `object` as soon as a stored block of a different dtype arrives
+    (a zero-width 2-D block changes nothing). -/
+theorem caches_append_coherent (g g' : Grown α) (b : Block α) (hc : g.Coherent)
+    (h : g.append b = .ok g') :
+    g'.Coherent ∧ g.tb.append b = .ok g'.tb ∧
+    g'.caches.rowDtype =
+      if b.width = 0 then g.caches.rowDtype
+      else match g.caches.rowDtype with
+        | none => some b.dt
+        | some r => if b.dt ≠ r then some objectDT else some r := by
+  obtain ⟨h1, h2, _, _, h5⟩ := Grown.append_inv g g' b hc h
+  refine ⟨h1, h2, ?_⟩
+  rw [h5]
+  cases g.caches.rowDtype <;> rfl
+
+example : ((Grown.empty 2 : Grown Nat).append (.d1 "i" [1, 2])).map (·.caches) =
+    .ok ⟨(2, 1), [(0, 0)], ["i"], some "i"⟩ := by decide
+
+example : (Grown.empty 2 : Grown Nat).Coherent := ⟨rfl, rfl, rfl⟩
+
+/-- EVERY history of `append` / `extend(iterable)` / `extend(TypeBlocks)` calls — including calls
+    that raise, and an `extend` that raises after having appended some blocks — from a coherent
+    start leaves caches equal to the recomputation from the final block list
+    (`_shape = (rows, total width)`, `_index = TB.index`, `_dtypes = TB.dtypes`), the blocks are the
+    old ones plus well-formed blocks on the right, and the row dtype is the `append` rule folded
+    over the dtypes of the added blocks. -/
+theorem caches_history_coherent (g : Grown α) (ops : List (CacheOp α)) (hc : g.Coherent) :
+    (g.run ops).Coherent ∧ (g.run ops).tb.rows = g.tb.rows ∧ (g.tb.WF → (g.run ops).tb.WF) ∧
+    ∃ added : List (Block α), (g.run ops).tb.blocks = g.tb.blocks ++ added ∧
+      (∀ b ∈ added, 0 < b.width ∧ b.RowsOk g.tb.rows) ∧
+      (g.run ops).caches.rowDtype = (added.map Block.dt).foldl Caches.appendRowDtype g.caches.rowDtype := by
+  obtain ⟨h1, h2⟩ := Grown.run_ext g ops hc
+  exact ⟨h1, h2.1, h2.wf, h2.2⟩
+
+/-- the history used below: an append, a zero-width block, a block of the wrong length (raises), an
+    `extend` whose second block raises (the first one stays), an `extend` with a TypeBlocks -/
+def opsEx : List (CacheOp Nat) :=
+  [.append (.d1 "i" [1, 2]), .append (.d2 "f" []), .append (.d1 "i" [1]),
+   .extendIter [.d2 "i" [[3, 4], [5, 6]], .d1 "i" [7]], .extend ⟨2, [.d1 "f" [8, 9]]⟩]
+
+example : ((Grown.empty 2).run opsEx).caches =
+      ⟨(2, 4), [(0, 0), (1, 0), (1, 1), (2, 0)], ["i", "i", "i", "f"], some objectDT⟩ ∧
+    (Grown.empty 2).runErrs opsEx = [none, none, some .shape, some .shape, none] := by decide
+
+/-- The row dtype a history of growth calls keeps, in closed form, when something was stored at the
+    start (row dtype `some r`): `r` while every added block has dtype `r`, else `object`. -/
+theorem caches_history_row_dtype (g : Grown α) (ops : List (CacheOp α)) (r : DT) (hc : g.Coherent)
+    (hr : g.caches.rowDtype = some r) :
+    ∃ added : List (Block α), (g.run ops).tb.blocks = g.tb.blocks ++ added ∧
+      (g.run ops).caches.rowDtype = some (if ∀ b ∈ added, b.dt = r then r else objectDT) := by
+  obtain ⟨_, _, added, hb, _, hd⟩ := Grown.run_ext g ops hc
+  refine ⟨added, hb, ?_⟩
+  rw [hd, hr, Caches.foldl_appendRowDtype_some]
+  simp
+
+/-- A TypeBlocks grown from nothing (`from_zero_size_shape((rows, 0))`, what `FrameGO(index=…)`
+    starts from): after any history the caches are the recomputation from the blocks and the row
+    dtype is `None` when nothing is stored, else the COMMON dtype of the blocks when they all have
+    one dtype, else `object`. -/
+theorem caches_grown_from_empty (rows : Nat) (ops : List (CacheOp α)) :
+    let g := (Grown.empty rows : Grown α).run ops
+    g.caches.shape = (rows, g.tb.ncols) ∧ g.caches.index = g.tb.index ∧ g.caches.dtypes = g.tb.dtypes ∧
+    g.tb.WF ∧ g.tb.rows = rows ∧
+    g.caches.rowDtype = match g.tb.blocks with
+      | [] => none
+      | b :: bs => some (if ∀ x ∈ bs, x.dt = b.dt then b.dt else objectDT) := by
+  intro g
+  have hc0 : (Grown.empty rows : Grown α).Coherent := ⟨rfl, rfl, rfl⟩
+  have hw0 : (Grown.empty rows : Grown α).tb.WF := ⟨by simp [Grown.empty], by simp [Grown.empty]⟩
+  obtain ⟨⟨h1, h2, h3⟩, hr, added, hb, _, hd⟩ := Grown.run_ext (Grown.empty rows : Grown α) ops hc0
+  have hwf := Grown.Ext.wf ⟨hr, added, hb, ‹_›, hd⟩ hw0
+  have hr' : g.tb.rows = rows := hr
+  refine ⟨by rw [h1, hr'], h2, h3, hwf, hr', ?_⟩
+  have hb' : g.tb.blocks = added := hb.trans (List.nil_append added)
+  have hd' : g.caches.rowDtype = (added.map Block.dt).foldl Caches.appendRowDtype none := hd
+  rw [hd', hb']
+  cases added with
+  | nil => rfl
+  | cons b bs =>
+    rw [List.map_cons, Caches.foldl_appendRowDtype_none]
+    simp
+
+/-- HISTORY DEPENDENCE of `_row_dtype`: the same two blocks (int64, float64) give row dtype
+    `float64` when passed to `from_blocks` at once (`resolve_dtype(int64, float64) = float64`) and
+    `object` when the second is appended to a TypeBlocks built from the first — same blocks, same
+    shape / index / dtypes, different row dtype.  (Replayed on the real code: `FrameGO` grown column
+    by column has `.values.dtype == object`, the `Frame` built at once `float64`.) -/
+theorem row_dtype_history_differs :
+    ∃ g1 g0 : Grown Nat,
+      Grown.ofBlocks resolveEx [.d1 "i8" [1, 2], .d1 "f8" [3, 4]] none = .ok g1 ∧
+      Grown.ofBlocks resolveEx [.d1 "i8" [1, 2]] none = .ok g0 ∧
+      (g0.run [.append (.d1 "f8" [3, 4])]).tb = g1.tb ∧
+      (g0.run [.append (.d1 "f8" [3, 4])]).caches.shape = g1.caches.shape ∧
+      (g0.run [.append (.d1 "f8" [3, 4])]).caches.index = g1.caches.index ∧
+      (g0.run [.append (.d1 "f8" [3, 4])]).caches.dtypes = g1.caches.dtypes ∧
+      g1.caches.rowDtype = some "f8" ∧
+      (g0.run [.append (.d1 "f8" [3, 4])]).caches.rowDtype = some objectDT :=
+  ⟨⟨⟨2, [.d1 "i8" [1, 2], .d1 "f8" [3, 4]]⟩, ⟨(2, 2), [(0, 0), (1, 0)], ["i8", "f8"], some "f8"⟩⟩,
+   ⟨⟨2, [.d1 "i8" [1, 2]]⟩, ⟨(2, 1), [(0, 0)], ["i8"], some "i8"⟩⟩,
+   by decide, by decide, by decide, by decide, by decide, by decide, by decide, by decide⟩
+
+/-- … and the dependence is exactly the coercing part of `resolve_dtype`: under a resolution that
+    never coerces (same → itself, different → object) `from_blocks` computes the row dtype that
+    growing block by block from nothing keeps. -/
+theorem row_dtype_history_agrees_of_preserving (resolve : DT → DT → DT)
+    (hs : ∀ a, resolve a a = a) (hd : ∀ a b, a ≠ b → resolve a b = objectDT) (bs : List (Block α)) :
+    Caches.initRowDtype resolve bs = (bs.map Block.dt).foldl Caches.appendRowDtype none := by
+  cases bs with
+  | nil => rfl
+  | cons b rest =>
+    rw [List.map_cons, Caches.foldl_appendRowDtype_none, Caches.initRowDtype,
+      Caches.resolveIter_preserving resolve hs hd]
+
+example : (∀ a, (fun a b : DT => if a = b then a else objectDT) a a = a) ∧
+    (∀ a b : DT, a ≠ b → (fun a b : DT => if a = b then a else objectDT) a b = objectDT) :=
+  ⟨by simp, by intro a b h; simp [h]⟩
 
 end SF.C03
